@@ -107,7 +107,7 @@ PROPS["C11"] = dict(
                 "exactly (sauce_cut), never more than the input, for every input.",
 )
 PROPS["C02"] = dict(
-    units=["sauce", "xbin_load", "fonts"],
+    units=["sauce", "xbin_load", "fonts", "bin_load"],
     trusted_base=LOADER_TRUST,
     unverified_remainder=["IcyDraw load_buffer (PNG decoder callbacks, zTXt, base64)", "Palette::load_palette (regex)",
                           "text formats load through parse_with_parser -> an emulation on a non-terminal buffer (C01's unit covers terminal buffers)"],
@@ -190,13 +190,13 @@ PROPS["C06"] = dict(
 
 
 PROPS["C05"] = dict(
-    units=["xbin_load"],
+    units=["xbin_load", "bin_load"],
     kani_quick=["c18_attr_byte_roundtrip", "c18_attr_tuple_roundtrip"],
     trusted_base=LOADER_TRUST + [
         "Buffer::new / Layer::new / Line::create: one unlocked visible layer pre-filled with `height` rows of `width` invisible cells (read from the code, assumed as vx_buffer_new)",
         "Buffer::set_sauce, Palette::from_63 assignment, BitFont::create_8 / set_font / clear_font_table are opaque statements (O1) with frame-only contracts",
     ],
-    unverified_remainder=["only the XBin reader side and the attribute byte codec are under contract: XBin::to_bytes, and the BIN, ADF, IDF and Tundra readers and writers are NOT decided",
+    unverified_remainder=["readers under contract: XBin, BIN, ADF. NOT decided: every writer (to_bytes of XBin, BIN, ADF, IDF, Tundra) and the IDF and Tundra readers - so the round trip itself is decided only up to 'what the reader does with the bytes'",
                           "for pictures higher than 25 rows the loaded height is proved <= the header height, equality needs the data to be complete (not stated)",
                           "palette and font block contents (from_63 is proved in unit palette; glyph data in C17)"],
     explanation="XBin::load_buffer is proved total on every byte string up to 16 MiB and to return the header's width, a height equal to the header's for pictures of at most 25 rows "
